@@ -17,11 +17,9 @@ pub mod m0_ren0 {
       rel2_(x1_, x0_, x1_) <-- if let Some(x0_) = Some(4), rel1_(x1_, x2_);
       rel3_(x0_, (x0_ + 1), x0_) <-- let x0_ = 2, rel1_(x1_, x0_) if ((*x1_) < 1), if (x0_ < 6);
       rel4_(x0_, x1_, (x0_ + 1)) <-- if let Some(x0_) = None::<i64>, rel2_(x0_, (x0_ + 0), x0_), rel3_(x1_, x0_, x0_), if (x0_ < 6);
-      rel3_(x0_, x2_, x3_) <-- rel1_(x0_, x1_), rel5_(x1_, x2_), rel1_(x2_, x3_);
-      rel2_(x0_, x2_, x3_) <-- rel1_(x0_, x1_), rel1_(x1_, x2_), rel5_(x2_, x3_);
-      rel3_((x0_ + 1), x0_, x0_) <-- if let Some(x0_) = Some(4), if (x0_ < 6);
-      rel0_(x0_) <-- if let Some(x0_) = Some(0), rel1_(x0_, (x0_ + 0));
-      rel3_(x2_, x1_, x1_) <-- rel4_(x0_, x1_, x2_), rel5_(x3_, x4_), rel4_(x5_, x4_, 1);
+      rel2_(x0_, x8_, x9_) <-- if let Some(x9_) = Some(2), rel1_(x0_, x1_), rel5_(x1_, x9_) let x8_ = ((*x0_) + 1);
+      rel3_(x0_, x1_, x2_) <-- rel5_(x0_, x1_) if ((*x0_) < 4), rel1_(x1_, x2_) if ((*x2_) != (*x1_));
+      rel5_((x0_ + 1), x0_) <-- for x0_ in [3, 4], if (x0_ < 6);
    }
    pub struct Inst { p: Prog, pool: Option<ascent::rayon::ThreadPool> }
    pub fn make(pool: Option<usize>) -> Box<dyn Driver> {
@@ -58,21 +56,20 @@ pub mod m2_perm0 {
    use crate::common::*;
    ascent! {
       pub struct Prog;
-      relation r0(i64, i64);
+      relation r3(i64, i64);
       relation r2(i64);
       relation r1(i64);
       relation r4(i64, i64);
-      relation r3(i64, i64);
       relation r5(i64, i64);
-      r4(v0, v1) <-- for v9 in 0..3, r5(v0, v1), r5(v9, v1);
-      r4(v0, v8) <-- if let Some(v9) = Some(2), r0(v0, v1), r3(v1, v9) let v8 = ((*v0) + 1);
-      r3(0, v1) <-- for v0 in 2..1, r1(v1), r2(v0) if (v0 < 6);
-      r2(v2) <-- r0(0, v0) if ((*v0) <= 6) let v1 = ((*v0) + 0), let v2 = 1;
-      r5(1, v0) <-- if let Some(v0) = Some(1);
-      r4(v0, v0) <-- r1(0), r3(1, v0), r1(v1) if ((*v0) != 3);
-      r5(((*v0) + 1), v0) <-- r5(v0, v1), if ((*v0) < 6);
+      relation r0(i64, i64);
+      r2(v0) <-- r5(v0, v1), r5(v0, v0), r5(v1, v2);
       r2(3) <-- r3(v0, v1);
-      r3(v0, v2) <-- r4(0, v0) if ((*v0) <= 3), r3(0, 0), if let Some(v2) = Some(((*v0) + 0)), r3(((*v0) + 0), v1);
+      r5(((*v0) + 1), v0) <-- r5(v0, v1), if ((*v0) < 6);
+      r3(v0, v2) <-- r3(0, 0), r4(0, v0) if ((*v0) <= 3), if let Some(v2) = Some(((*v0) + 0)), r3(((*v0) + 0), v1);
+      r2(v2) <-- r0(0, v0) if ((*v0) <= 6) let v1 = ((*v0) + 0), let v2 = 1;
+      r4(v0, v1) <-- r0(v0, v1), r3(v0, v0), r0(v1, v2);
+      r4(v2, v1) <-- if let Some(v0) = Some(0), r1(v2) if ((*v2) != 3), r2(v1) if ((*v1) < 5);
+      r3(0, v1) <-- for v0 in 2..1, r1(v1), r2(v0) if (v0 < 6);
    }
    pub struct Inst { p: Prog, pool: Option<ascent::rayon::ThreadPool> }
    pub fn make(pool: Option<usize>) -> Box<dyn Driver> {
@@ -120,11 +117,10 @@ pub mod m3_ren1 {
       foo(a, 1) <-- node(a) if ((*a) != 1);
       bar(a, a) <-- foo(a, 3), if ((*a) <= 1), node(a);
       baz((c + 1), c, 1) <-- bar(a, b) if ((*a) < 1) let c = ((*b) + 0), foo(c, a), let d = (*b), if (c < 6);
-      baz(a, b, m) <-- for m in 0..3, edge(a, b), foo(m, b);
-      foo(a, a) <-- path(a) if ((*a) != 6), let b = (*a), node(c);
-      baz(c, e, d) <-- edge(a, b) if ((*b) <= 4), edge(c, d), if let Some(e) = Some((*d));
-      foo(a, c) <-- let a = 3, baz(a, b, a), bar(((*b) + 1), ((*b) + 1)) if ((*b) <= 6), edge(((*b) + 1), c);
-      path(((*a) + 1)) <-- path(a) if ((*a) < 3), if ((*a) < 6);
+      foo(a, k) <-- if let Some(m) = Some(2), edge(a, b), foo(b, m) let k = ((*a) + 1);
+      bar(a, 1) <-- edge(a, 3) if ((*a) != 6), let b = (*a);
+      edge(3, 0);
+      path(((*a) + 1)) <-- edge(1, a), if ((*a) < 6);
    }
    pub struct Inst { p: Prog, pool: Option<ascent::rayon::ThreadPool> }
    pub fn make(pool: Option<usize>) -> Box<dyn Driver> {
@@ -162,10 +158,10 @@ pub mod m5_perm1 {
    ascent! {
       pub struct Prog;
       relation r0(i64, i64);
-      relation r2(i64, i64);
       relation r1(i64, i64);
-      r2(v0, v1) <-- r2(v0, v1), if ((*v0) != 2), r2(1, v2);
+      relation r2(i64, i64);
       r2(v1, v1) <-- r0(v0, v1), r2(v0, v2);
+      r2(v0, v1) <-- r2(v0, v1), r2(v1, v1), if ((*v1) != 2);
    }
    pub struct Inst { p: Prog, pool: Option<ascent::rayon::ThreadPool> }
    pub fn make(pool: Option<usize>) -> Box<dyn Driver> {
@@ -204,8 +200,8 @@ pub mod m6_ren0 {
       relation rel2_(i64, i64);
       rel2_(1, x0_) <-- rel1_(x0_, x1_);
       rel2_(x0_, x0_) <-- rel2_(3, x0_), rel2_(x0_, x1_);
-      rel2_(x0_, x1_) <-- rel2_(x0_, x1_), rel2_(x1_, x2_);
-      rel2_(x0_, x1_) <-- rel2_(x0_, x1_), rel2_(1, x2_);
+      rel2_(x0_, x1_) <-- rel2_(x0_, x1_), rel2_(x1_, x1_);
+      rel2_(x0_, x2_) <-- rel1_(x0_, x1_), rel2_(x1_, x2_), rel1_(x2_, x3_);
       rel2_(x0_, x1_) <-- rel0_(x0_, x1_), if ((*x0_) == 3);
       rel1_(1, 0);
    }
@@ -248,8 +244,8 @@ pub mod m7_ren1 {
       path(a, a) <-- edge(a, b), if ((*a) != 3);
       node(b, b) <-- edge(a, b);
       foo(2) <-- path(0, a), node(b, c), if ((*a) != 2);
-      path(a, a) <-- edge(a, b), node(b, m), if ((*m) == 1);
-      path(a, b) <-- edge(a, b), path(m, b);
+      path(a, b) <-- edge(a, b), node(a, a), edge(b, c), if ((*c) == 1);
+      path(a, c) <-- edge(a, b), path(b, c), edge(c, d);
       foo(b) <-- edge(a, b), if ((*a) == 0);
       path(1, 2);
       path(1, 3);
@@ -292,13 +288,10 @@ pub mod m8_i32 {
       relation r2(i32, i32, i32);
       relation r3(i32, i32);
       relation r4(i32);
-      r1(v0, v0) <-- r0(v0), if ((*v0) != 100021);
+      r1(v0, v0) <-- r0(v0), if ((*v0) != 100000);
       r1(v1, v0) <-- r1(v0, v1), r0(v0);
-      r2(v0, v1, v2) <-- r3(v0, v1), r1(100007, v2);
-      r1(v0, v0) <-- r1(v0, 100000), if ((*v0) != 100000);
-      r1(100000, v0) <-- r2(v0, v1, v2), r4(v3);
-      r1(100000, 100007) <-- r0(100021);
-      r4(v0) <-- r4(v0), r2(100007, v0, v0), r4(v0);
+      r4(v0) <-- r3(v0, v1), r1(v1, v2), if ((*v2) == 100000);
+      r3(v1, v0) <-- r2(100000, v0, v1), if ((*v1) == 100014);
    }
    pub struct Inst { p: Prog, pool: Option<ascent::rayon::ThreadPool> }
    pub fn make(pool: Option<usize>) -> Box<dyn Driver> {
@@ -338,7 +331,7 @@ pub mod m9_str {
       relation r1(String, String);
       relation r2(String, String, String);
       r2(v0, v0, v0) <-- r1(v0, "s3".to_string()), if (v0.clone() == "s1".to_string());
-      r2(v0, v1, v9) <-- r1(v0, v1), r1(v1, v9);
+      r2(v0, v1, v0) <-- r1(v0, v1), r1(v1, v1);
       r1(v1, v2) <-- r2(v0, "s3".to_string(), v1), r1("s1".to_string(), v2), if (v0.clone() != "s3".to_string());
       r1("s3".to_string(), "s2".to_string());
       r2(v2, v1, v5) <-- r1(v0, v1), r2(v2, v1, v3), r2(v4, v1, v5), if (v0.clone() != "s2".to_string());
@@ -367,6 +360,44 @@ pub mod m9_str {
    }
 }
 
+#[allow(unused, non_snake_case, clippy::all)]
+pub mod m11_perm1 {
+   use ascent::*;
+   use ascent::aggregators::*;
+   use ascent::lattice::{Dual, set::Set};
+   use crate::common::*;
+   ascent! {
+      pub struct Prog;
+      relation r2(i64, i64);
+      relation r1(i64, i64);
+      relation r0(i64, i64);
+      r2(v0, v1) <-- r2(v0, v1), r2(v1, v2), r0(v0, v0);
+      r2(1, v0) <-- if let Some(v0) = Some(3), r0(v0, v0), r1(v0, v1), for v2 in 0..4;
+   }
+   pub struct Inst { p: Prog, pool: Option<ascent::rayon::ThreadPool> }
+   pub fn make(pool: Option<usize>) -> Box<dyn Driver> {
+      let pool = pool.map(|n| ascent::rayon::ThreadPoolBuilder::new().num_threads(n).build().unwrap());
+      let p = match &pool { Some(pl) => pl.install(|| Default::default()), None => Default::default() };
+      Box::new(Inst { p, pool })
+   }
+   impl Driver for Inst {
+      fn load(&mut self, rel: usize, rows: &[Sexp], append: bool) -> Option<()> {
+         match rel {
+         0 => { let v: Vec<(i64,i64,)> = parse_rows(rows)?; if append { self.p.r0.extend(v) } else { self.p.r0 = v } },
+         1 => { let v: Vec<(i64,i64,)> = parse_rows(rows)?; if append { self.p.r1.extend(v) } else { self.p.r1 = v } },
+         2 => { let v: Vec<(i64,i64,)> = parse_rows(rows)?; if append { self.p.r2.extend(v) } else { self.p.r2 = v } },
+            _ => return None,
+         }
+         Some(())
+      }
+      fn run(&mut self) { match &self.pool { Some(pl) => { let p = &mut self.p; pl.install(|| p.run()) }, None => self.p.run() } }
+      fn run_here(&mut self) { self.p.run() }
+      fn run_timeout(&mut self, k: usize) -> Option<bool> { let _ = k; None }
+      fn dump(&self) -> String { vec![dump_rel(0, self.p.r0.iter().map(Row::render).collect()), dump_rel(1, self.p.r1.iter().map(Row::render).collect()), dump_rel(2, self.p.r2.iter().map(Row::render).collect())].join(" | ") }
+      fn iters(&self) -> String { format!("iters {}", self.p.scc_iters.iter().map(|x| x.to_string()).collect::<Vec<_>>().join(" ")) }
+   }
+}
+
 fn main() {
-   common::main_loop(&[("m0_ren0", m0_ren0::make as common::Factory), ("m2_perm0", m2_perm0::make as common::Factory), ("m3_ren1", m3_ren1::make as common::Factory), ("m5_perm1", m5_perm1::make as common::Factory), ("m6_ren0", m6_ren0::make as common::Factory), ("m7_ren1", m7_ren1::make as common::Factory), ("m8_i32", m8_i32::make as common::Factory), ("m9_str", m9_str::make as common::Factory)]);
+   common::main_loop(&[("m0_ren0", m0_ren0::make as common::Factory), ("m2_perm0", m2_perm0::make as common::Factory), ("m3_ren1", m3_ren1::make as common::Factory), ("m5_perm1", m5_perm1::make as common::Factory), ("m6_ren0", m6_ren0::make as common::Factory), ("m7_ren1", m7_ren1::make as common::Factory), ("m8_i32", m8_i32::make as common::Factory), ("m9_str", m9_str::make as common::Factory), ("m11_perm1", m11_perm1::make as common::Factory)]);
 }
